@@ -43,6 +43,40 @@ ESC_NAMES = ['a\\\\g', 'x\\\\-y']      # escaped backslash before a non-hex char
 NAMES_BAD = ['', 'a b', '1a', '"x"', 'a:b', 'a;b', ' ', '/**/', '#a', 'a!']
 
 
+# serializer preferences read by do_Property / do_css_CSSStyleDeclaration / do_css_CSSVariablesDeclaration / Out
+PREF_BOOLS = ['keepAllProperties', 'keepComments', 'omitLastSemicolon', 'defaultPropertyName',
+              'defaultPropertyPriority', 'validOnly', 'normalizedVarNames', 'indentClosingBrace']
+PREF_STRS = ['lineSeparator', 'propertyNameSpacer', 'spacer', 'listItemSpacer', 'paranthesisSpacer', 'indent']
+PREF_DEFAULTS = {'keepAllProperties': True, 'keepComments': True, 'omitLastSemicolon': True,
+                 'defaultPropertyName': True, 'defaultPropertyPriority': True, 'validOnly': False,
+                 'normalizedVarNames': True, 'indentClosingBrace': True, 'lineSeparator': '\n',
+                 'propertyNameSpacer': ' ', 'spacer': ' ', 'listItemSpacer': ' ', 'paranthesisSpacer': ' ',
+                 'indent': '    '}
+PREF_STR_CHOICES = {'lineSeparator': ['\n', '', ' ', '\n\n', '\r\n'], 'propertyNameSpacer': [' ', '', '  '],
+                    'spacer': [' ', ''], 'listItemSpacer': [' ', ''], 'paranthesisSpacer': [' ', ''],
+                    'indent': ['    ', '', '\t']}
+
+
+def gen_prefs(rng, single=False):
+    """a setting of the serializer preferences: everything random, or (single) one preference off its default"""
+    pf = dict(PREF_DEFAULTS)
+    if single:
+        k = rng.choice(PREF_BOOLS + PREF_STRS)
+        if k in PREF_BOOLS:
+            pf[k] = not pf[k]
+        else:
+            pf[k] = rng.choice([c for c in PREF_STR_CHOICES[k] if c != pf[k]])
+        return pf
+    for k in PREF_BOOLS:
+        p_flip = 0.15 if k == 'validOnly' else 0.4
+        if rng.random() < p_flip:
+            pf[k] = not pf[k]
+    for k in PREF_STRS:
+        if rng.random() < 0.4:
+            pf[k] = rng.choice(PREF_STR_CHOICES[k])
+    return pf
+
+
 def respell(rng, name, allow_hex=True, allow_pad=False):
     """another spelling of the same identifier: case, simple escapes, hex escapes (, padding)"""
     out = []
